@@ -151,6 +151,26 @@ func c09InLoop(o *out, dir, recv, name, coqName, callee string) {
 	o.f("Definition %s : bool := %v. (* %s:%s.%s calls %s inside its loop *)\n", coqName, found, dir, recv, name, callee)
 }
 
+// c09NoCall: true iff the function contains no call to a method or function named `name`.
+func c09NoCall(o *out, dir, recv, fn, coqName, name string) {
+	p, fd := findFunc(dir, recv, fn)
+	if fd == nil {
+		o.brokenDef(coqName, "function "+dir+":"+recv+"."+fn+" not found")
+		return
+	}
+	found := false
+	ast.Inspect(fd.Body, func(n ast.Node) bool {
+		if ce, ok := n.(*ast.CallExpr); ok {
+			callee := printNode(p.fset, ce.Fun)
+			if callee == name || strings.HasSuffix(callee, "."+name) {
+				found = true
+			}
+		}
+		return true
+	})
+	o.f("Definition %s : bool := %v. (* %s:%s.%s makes no call to %s *)\n", coqName, !found, dir, recv, fn, name)
+}
+
 func init() {
 	generators["C09_gen"] = func(o *out) {
 		// ------------------------------------------------------------ APK merkle hasher
@@ -259,10 +279,17 @@ func init() {
 		const zs = "lib/zipslicer"
 		o.constString(zs, "TarMemberCD", "tar_member_cd")
 		o.constString(zs, "TarMemberZip", "tar_member_zip")
-		// members in the order ZipToTar emits them / ReadZipTar expects them: 0 = central directory, 1 = whole zip
+		// members in the order ZipToTar emits them / ReadZipTar expects them: 0 = central directory, 1 = whole zip; each is
+		// read through io.NewSectionReader(r, offset, length) (positioned reads: no shared file offset)
 		c09CallArgs(o, zs, "", "ZipToTar", "ziptotar_members", "tarAddStream", 2, map[string]int{"TarMemberCD": 0, "TarMemberZip": 1})
 		c09CallArgs(o, zs, "", "ZipToTar", "ziptotar_sizes", "tarAddStream", 3, map[string]int{"size - dirLoc": 0, "size": 1})
-		c09CallArgs(o, zs, "", "ZipToTar", "ziptotar_seeks", "r.Seek", 0, map[string]int{"0": 0, "dirLoc": 1})
+		c09CallArgs(o, zs, "", "ZipToTar", "ziptotar_offsets", "io.NewSectionReader", 1, map[string]int{"0": 0, "dirLoc": 1})
+		c09CallArgs(o, zs, "", "ZipToTar", "ziptotar_lengths", "io.NewSectionReader", 2, map[string]int{"size - dirLoc": 0, "size": 1})
+		c09NoCall(o, zs, "", "ZipToTar", "ziptotar_no_seek", "Seek")
+		c09NoCall(o, zs, "", "tarAddStream", "taraddstream_no_seek", "Seek")
+		c09NoCall(o, "signers/macho", "transformer", "send", "macho_send_no_seek", "Seek")
+		c09NoCall(o, "signers/dmg", "transformer", "send", "dmg_send_no_seek", "Seek")
+		c09NoCall(o, ac, "", "MsiToTar", "msitotar_no_seek", "Seek")
 		o.condOf(funcSpec{dir: zs, recv: "", name: "ReadZipTar", coqName: "readziptar_first_bad", params: "(name : bytes)", retType: "bool",
 			leaves: map[string]string{"hdr.Name": "name", "TarMemberCD": "tar_member_cd", "TarMemberZip": "tar_member_zip", "err != nil": "false"},
 			types:  map[string]string{"hdr.Name": "bytes", "TarMemberCD": "bytes", "TarMemberZip": "bytes", "err != nil": "bool"}}, "if:hdr.Name", 0)
